@@ -555,6 +555,40 @@ Fixpoint json_wfb (j : json) : bool :=
   | _ => true
   end.
 
+(* [jeqv a b]: a and b are the same JSON value when objects are read as finite maps
+   (meaningful when both have distinct keys): what serde_json::Value's equality is, and
+   what relates the real serializer's output (HashMap iteration order, field order) to
+   the model's *)
+Fixpoint jeqv (a b : json) {struct a} : Prop :=
+  match a with
+  | JNull => b = JNull
+  | JBool x => b = JBool x
+  | JNum x => b = JNum x
+  | JStr x => b = JStr x
+  | JArr l =>
+      match b with
+      | JArr l' =>
+          (fix go (l l' : list json) {struct l} : Prop :=
+             match l, l' with
+             | [], [] => True
+             | x :: r, y :: r' => jeqv x y /\ go r r'
+             | _, _ => False
+             end) l l'
+      | _ => False
+      end
+  | JObj m =>
+      match b with
+      | JObj m' =>
+          length m = length m' /\
+          (fix go (m : list (str * json)) : Prop :=
+             match m with
+             | [] => True
+             | kv :: r => (exists v', sget (fst kv) m' = Some v' /\ jeqv (snd kv) v') /\ go r
+             end) m
+      | _ => False
+      end
+  end.
+
 (* ---- boolean equalities (for the judgement on the implementation's output) *)
 Definition pos_eqb (a b : pos) : bool := N.eqb (p_line a) (p_line b) && N.eqb (p_char a) (p_char b).
 Definition range_eqb (a b : prange) : bool := pos_eqb (r_start a) (r_start b) && pos_eqb (r_end a) (r_end b).
